@@ -49,6 +49,17 @@ def ofModel (t : List (Column PV)) : Json :=
 def lexModel (c : Json) : P (Option (List (List String))) := do
   let lines ← listF asStr c "lines"
   let delim ← strF c "delim"
+  -- the file object's way of cutting the text into lines is modelled too: LF only for `io.StringIO(text)`, universal newlines
+  -- without translation for everything opened or built with `newline=''`
+  match c.getObjVal? "text" with
+  | .ok tj =>
+    let text ← asStr tj
+    let src ← strF c "src"
+    let pol := if src == "sio_default" then CsvLex.lf else CsvLex.univ
+    let mlines := (CsvLex.splitP pol text.toList).map String.ofList
+    if mlines != lines then
+      throw s!"the line-splitting model ({src}) cuts the text into {mlines} where the file object delivers {lines}"
+  | .error _ => pure ()
   match delim.toList with
   | [d] =>
     match CsvLex.parseLines d (lines.map String.toList) with
